@@ -75,15 +75,15 @@ PoolC02paren(paths, A) == {Filter(pa, <<p>>, <<>>) : pa \in paths, p \in A}
 (***************************************************************************)
 (* C03: positional predicates, first on a child-axis step                  *)
 (***************************************************************************)
-Pos  == Call("position", <<>>)
-Last == Call("last", <<>>)
+PosFn  == Call("position", <<>>)
+LastFn == Call("last", <<>>)
 PosAtoms(maxN) ==
     {N(n) : n \in 1 .. maxN}
-    \cup {Bin(op, Pos, N(n)) : op \in CmpOps, n \in 1 .. maxN}
-    \cup {Bin(op, Pos, Last) : op \in CmpOps}
-    \cup {Last}
-    \cup {Bin("-", Last, N(k)) : k \in 1 .. 2}
-    \cup {Bin("=", Pos, Bin("-", Last, N(k))) : k \in 0 .. 1}
+    \cup {Bin(op, PosFn, N(n)) : op \in CmpOps, n \in 1 .. maxN}
+    \cup {Bin(op, PosFn, LastFn) : op \in CmpOps}
+    \cup {LastFn}
+    \cup {Bin("-", LastFn, N(k)) : k \in 1 .. 2}
+    \cup {Bin("=", PosFn, Bin("-", LastFn, N(k))) : k \in 0 .. 1}
 
 \* child step with a positional first predicate and 0..1 boolean predicates,
 \* after: nothing, '/', '//', another child step, a parent step, an ancestor step
@@ -206,5 +206,91 @@ PoolC09nest ==
              x \in StrLits(StrPool), y \in StrLits(StrPool)}
     \cup {Call("substring", <<Call("concat", <<x, Lit("xyz")>>), Call("string-length", <<x>>), N(2)>>) : x \in StrLits(StrPool)}
     \cup {Call("starts-with", <<Call("normalize-space", <<x>>), Call("substring", <<x, N(2)>>)>>) : x \in StrLits(StrPool)}
+
+(***************************************************************************)
+(* Pools with modes for the API-history properties (C04, C05, C12)         *)
+(***************************************************************************)
+PE(e, m) == [e |-> e, m |-> m]
+Desc(nt)   == Path(TRUE, <<DosNode, Step("child", nt, <<>>)>>)            \* //nt
+DescP(nt, preds) == Path(TRUE, <<DosNode, Step("child", nt, preds)>>)   \* //nt[..]
+TA == NTName("a")
+TB == NTName("b")
+TC == NTName("c")
+
+\* the engine's stateful constructs (ancestor table, following/preceding
+\* cursors, union buffers, reverse, positional filters, merge rewrite,
+\* last() on a filter, count/string-join/sum/name, descendant-over-descendant)
+PoolC04 ==
+  { PE(DescP(TB, <<Rel1("ancestor", TA)>>), "set"),
+    PE(Bin("=", Rel1("ancestor", TA), Lit("")), "set"),
+    PE(Bin("=", Rel1("ancestor-or-self", NTAny), Lit("1")), "set"),
+    PE(Rel1("following", NTAny), "set"),
+    PE(Rel1("preceding", NTAny), "set"),
+    PE(Rel1("ancestor", NTAny), "set"),
+    PE(Union(Desc(TA), Desc(TB)), "once"),
+    PE(Union(Rel1("child", NTAny), Rel1("descendant", TB)), "once"),
+    PE(Call("reverse", <<Desc(TB)>>), "set"),
+    PE(Filter(Desc(TB), <<N(2)>>, <<>>), "set"),
+    PE(DescP(TB, <<N(2)>>), "set"),
+    PE(DescP(TB, <<Bin("=", PosFn, LastFn)>>), "set"),
+    PE(DescP(NTAny, <<LastFn>>), "set"),
+    PE(DescP(TB, <<Rel1("child", TC), N(1)>>), "none"),
+    PE(Filter(Desc(TC), <<LastFn>>, <<>>), "none"),
+    PE(DescP(TB, <<Rel1("attribute", TA), LastFn>>), "none"),
+    PE(Call("count", <<Desc(TB)>>), "set"),
+    PE(Call("string-join", <<Desc(TB), Lit(",")>>), "set"),
+    PE(Call("sum", <<Desc(TB)>>), "none"),
+    PE(Call("name", <<Desc(TB)>>), "set"),
+    PE(Call("count", <<Rel1("following", NTAny)>>), "set"),
+    PE(Path(TRUE, <<DosNode, Step("child", TB, <<Rel1("child", TA)>>), Step("child", NTAny, <<>>)>>), "set"),
+    PE(Path(FALSE, <<Step("descendant", TA, <<>>), Step("descendant", TB, <<>>)>>), "set"),
+    PE(Path(FALSE, <<Step("descendant", NTAny, <<>>), Step("descendant-or-self", TB, <<>>)>>), "set"),
+    PE(Path(TRUE, <<DosNode, Step("child", TA, <<>>), DosNode, Step("child", TB, <<>>)>>), "set"),
+    PE(SeqStep(Rel1("child", TA), <<Step("child", TB, <<>>), Step("child", TC, <<>>)>>), "once"),
+    PE(Bin("=", Desc(TB), N(1)), "set"),
+    PE(Bin(">", Desc(TB), Desc(TC)), "none"),
+    PE(Bin("=", Desc(TB), Desc(TC)), "set"),
+    PE(Call("concat", <<Desc(TA), Desc(TB)>>), "set"),
+    PE(DescP(TB, <<Call("not", <<Rel1("following-sibling", TB)>>)>>), "set"),
+    PE(DescP(NTAny, <<Bin(">", Call("count", <<Rel1("ancestor", NTAny)>>), N(1))>>), "set"),
+    PE(DescP(TA, <<Rel1("descendant", TB), Rel1("following", NTAny)>>), "set"),
+    PE(Path(FALSE, <<Step("child", NTAny, <<>>), Step("child", NTAny, <<>>)>>), "seq"),
+    PE(Desc(TA), "seq"),
+    PE(Path(FALSE, <<Step("child", TA, <<>>), Step("attribute", TA, <<>>)>>), "seq"),
+    PE(Path(FALSE, <<Step("self", NTNode, <<>>), DosNode, Step("child", TB, <<N(1)>>)>>), "set"),
+    PE(Path(FALSE, <<Step("child", NTAny, <<N(2)>>), Step("child", TB, <<>>)>>), "set"),
+    PE(Path(TRUE, <<DosNode, Step("child", TA, <<>>), Step("child", TB, <<N(1)>>)>>), "set"),
+    PE(Path(FALSE, <<Step("child", TA, <<>>), Step("child", TB, <<LastFn>>)>>), "set"),
+    PE(Bin("and", Desc(TA), Desc(NTName("zz"))), "set"),
+    PE(Call("not", <<Desc(TB)>>), "set"),
+    PE(Path(FALSE, <<Step("ancestor-or-self", NTAny, <<N(1)>>)>>), "none"),
+    PE(Path(FALSE, <<Step("preceding-sibling", NTAny, <<N(1)>>)>>), "none"),
+    PE(DescP(TB, <<Bin("=", SelfDot, Lit("1"))>>), "set"),
+    PE(Desc(NTText), "set"),
+    PE(Path(TRUE, <<DosNode, Step("attribute", TA, <<>>)>>), "set"),
+    PE(Filter(Union(Rel1("child", TA), Rel1("child", TB)), <<N(1)>>, <<>>), "none"),
+    PE(Path(FALSE, <<Step("following-sibling", NTAny, <<>>), Step("preceding-sibling", NTAny, <<>>)>>), "set"),
+    PE(Path(FALSE, <<Step("parent", NTNode, <<>>), Step("child", NTAny, <<>>)>>), "set"),
+    PE(Call("string", <<Rel1("following", NTAny)>>), "set"),
+    PE(Call("normalize-space", <<>>), "set"),
+    PE(Bin("+", Call("count", <<Rel1("preceding", NTAny)>>), Call("count", <<Rel1("following", NTAny)>>)), "set") }
+
+\* C12: flat paths (document order, no duplicates) exhaustively, plus
+\* non-flat node-set expressions for the protocol relations
+FlatAxes == {"child", "attribute", "self"}
+FlatSteps == {Step(ax, nt, <<>>) : ax \in FlatAxes, nt \in {TA, TB, NTAny, NTNode, NTText}}
+FlatPreds == {<<>>, <<Rel1("child", NTAny)>>, <<N(1)>>, <<N(2)>>, <<LastFn>>, <<Bin("=", SelfDot, Lit("1"))>>,
+              <<Bin(">", PosFn, N(1))>>, <<N(2), Rel1("child", NTAny)>>}
+PoolC12flat1 == {PE(Path(FALSE, <<s>>), "seq") : s \in FlatSteps}
+PoolC12flat2 == {PE(Path(FALSE, <<s1, s2>>), "seq") : s1 \in FlatSteps, s2 \in FlatSteps}
+PoolC12flat3 == {PE(Path(FALSE, <<Step("child", NTAny, <<>>), s1, s2>>), "seq") : s1 \in FlatSteps, s2 \in FlatSteps}
+PoolC12desc  == {PE(Desc(nt), "seq") : nt \in {TA, TB, NTAny, NTText, NTNode}}
+                \cup {PE(Path(FALSE, <<Step("descendant", nt, <<>>)>>), "seq") : nt \in {TA, TB, NTAny, NTNode}}
+                \cup {PE(Path(FALSE, <<DosNode, Step("child", nt, <<>>)>>), "seq") : nt \in {TA, TB, NTAny}}
+PoolC12pred  == {PE(Path(FALSE, <<Step("child", nt, p)>>), "seq") : nt \in {TB, NTAny}, p \in FlatPreds}
+                \cup {PE(Path(FALSE, <<Step("child", NTAny, <<>>), Step("child", nt, p)>>), "seq") : nt \in {TB, NTAny}, p \in FlatPreds}
+PoolC12 == PoolC12flat1 \cup PoolC12flat2 \cup PoolC12desc \cup PoolC12pred
+PoolC12big == PoolC12 \cup PoolC12flat3
+PoolC13 == PoolC04
 
 =============================================================================
